@@ -113,7 +113,12 @@ func c14Shapes(prog, proc uint32, thorough bool) []string {
 			out = append(out, "wf:root,file,"+nm)
 		}
 	}
+	if prog == wire.ProgNFS && proc == wire.CREATE {
+		// every create mode over the existing name, with a size in sattr3 (the resize-on-recreate path)
+		out = append(out, "wfcreate:0,size", "wfcreate:1,size", "wfcreate:2", "wfcreate:0,nosize")
+	}
 	if prog == wire.ProgNFS && proc == wire.SETATTR {
+		out = append(out, "wfsetsize:file")
 		// sattrguard3: obj_ctime that cannot match (NFS3ERR_NOT_SYNC path) and, for the stale handle, the same
 		out = append(out, "wfguard:file", "wfguard:dir", "wfguard:stale")
 	}
@@ -177,6 +182,24 @@ func (w *c14World) args(prog, proc uint32, shape string) []byte {
 	case strings.HasPrefix(shape, "wf:"):
 		p := strings.SplitN(shape[3:], ",", 3)
 		return c14Build(prog, proc, w.handleOf(p[0]), w.handleOf(p[1]), p[2])
+	case strings.HasPrefix(shape, "wfcreate:"):
+		var e wire.Enc
+		e.FH(w.root).Str("f")
+		switch shape[9:] {
+		case "0,size":
+			e.U32(0).Sattr(wire.Sattr{Size: wire.U64p(0)})
+		case "1,size":
+			e.U32(1).Sattr(wire.Sattr{Size: wire.U64p(3)})
+		case "2":
+			e.U32(2).Raw([]byte("verifier"))
+		default:
+			e.U32(0).Sattr(wire.Sattr{})
+		}
+		return e.B
+	case shape == "wfsetsize:file":
+		var e wire.Enc
+		e.FH(w.file).Sattr(wire.Sattr{Size: wire.U64p(1)}).U32(0)
+		return e.B
 	case strings.HasPrefix(shape, "wfguard:"):
 		var e wire.Enc
 		e.FH(w.handleOf(shape[8:])).Sattr(wire.Sattr{Mode: wire.U32p(0o640)}).U32(1).U32(12345).U32(678)
@@ -213,7 +236,7 @@ func (w *c14World) args(prog, proc uint32, shape string) []byte {
 
 func c14ShapeClass(shape string) string {
 	switch {
-	case strings.HasPrefix(shape, "wf:"), strings.HasPrefix(shape, "wflarge:"), strings.HasPrefix(shape, "wfguard:"):
+	case strings.HasPrefix(shape, "wf"):
 		return "wellformed"
 	case strings.HasPrefix(shape, "prefix:"):
 		return "truncated"
